@@ -155,6 +155,7 @@ static bool gen_one(uint64_t seed, long idx, const std::string & dir, long K) {
         std::vector<uint8_t> E; long n115 = 0; std::vector<size_t> ends;
         for (size_t i = 0; i < s.objs.size(); i++) { std::vector<uint8_t> e = sg::encode(s.objs[i], s.cis[i]); E.insert(E.end(), e.begin(), e.end()); ends.push_back(E.size()); if ((unsigned)s.objs[i]->objectType == 115) n115++; }
         uint64_t w_usize, w_count, w_fsize, w_rpo; uint64_t w_cur_usize; uint32_t w_cur_count;
+        if (idx % 4 == 3) { twin::Bytes old = twin::wrap(twin::Bytes(E.begin(), E.end()), 100, 0); old.insert(old.end(), old.begin() + 144, old.end()); old.insert(old.end(), 5000, 0x4c); twin::save(base + ".blf", old); }   // an older, longer log at the same path
         {
             File f;
             std::string e = write_file(base + ".blf", s, c, &f, set_header, &h, 0, idx % 5 == 2, idx % 3 == 1);
@@ -512,6 +513,7 @@ static int run_c10(uint64_t seed, long from, long to, const char * listfile, lon
         long limit = 64 * (long)mut.size() + 4096;
         try {
             File f; bool open_ok = false;
+            if (c % 2) f.verifSetLimits(1 + (uint32_t)(c / 2) % 3, 64 << ((c / 6) % 4));      // workers blocked on full buffers when the input turns bad
             try { f.open(path.c_str(), std::ios_base::in); open_ok = f.is_open(); } catch (Vector::BLF::Exception &) { threw++; }
             if (open_ok) {
                 opened++;
